@@ -231,7 +231,7 @@ func checkC17(env *kernel.Env) {
 			name string
 			w    int
 		}
-		acts := []act{{"read", 6}, {"noise", 2}}
+		acts := []act{{"read", 6}, {"noise", 2}, {"rejected", 1}}
 		if mayWrite && !x.readOnly {
 			acts = append(acts, act{"insert", 5}, act{"update", 4}, act{"delete", 2}, act{"insert-dup", 1}, act{"update-fault", 1})
 		}
@@ -265,6 +265,23 @@ func checkC17(env *kernel.Env) {
 		env.Kind(a)
 		who := fmt.Sprintf("s%d", x.idx+1)
 		switch a {
+		case "rejected":
+			// a statement refused before it executes (unknown column / table, syntax): it
+			// changes nothing, and neither ends nor replaces the session's transaction or
+			// what the session sees of the tables afterwards
+			beginIfNeeded(x)
+			qs := []string{
+				"SELECT nosuchcolumn FROM " + t.name, "INSERT INTO " + t.name + " (nosuch) VALUES (1)", "UPDATE " + t.name + " SET nosuch = 1",
+				"SELECT * FROM nosuchtable", "DELETE FROM " + t.name + " WHERE nosuch = 1", "SELEC 1", "SELECT id FROM " + t.name + " WHERE id = (SELECT nosuch FROM " + t.name + ")",
+				"PREPARE pbad FROM 'SELECT nosuch FROM " + t.name + "'",
+			}
+			q := qs[T.Draw(len(qs))]
+			r := x.s.Exec(q)
+			env.Logf("%s %s -> %s", who, q, ErrClass(r.Err))
+			env.Fault("rejected-statement")
+			if r.Err == nil {
+				env.Fail("statement-outcome", "invalid-statement-accepted", "%s: %s succeeded", who, q)
+			}
 		case "noise":
 			// statements that neither read nor write table data: they must leave
 			// the session's transaction exactly as it is (the reads that follow
